@@ -98,9 +98,13 @@ extern "C" void __tsan_release(void*);
 #define VMC_TSAN_ACQ(p) ((void)0)
 #define VMC_TSAN_REL(p) ((void)0)
 #endif
+#define VMC_EXEC_BEGIN() VMC_TSAN_ACQ(&::vmc::g_exec_tok)
+#define VMC_EXEC_END() VMC_TSAN_REL(&::vmc::g_exec_tok)
 
 namespace vmc {
 inline char g_thread_tok[256];
+inline char g_thread_start_tok[256];
+inline char g_exec_tok;   // orders one execution's threads before the next execution's main thread (ThreadSanitizer flavour)
 template <class T>
 inline uint64_t tohash(const T& v) noexcept {
   uint64_t r = 0;
@@ -183,8 +187,13 @@ inline void fence(std::memory_order o) noexcept {
 
 // the runtime is not sanitizer-instrumented: touch the object from instrumented code first so that a lock
 // operation on a destroyed/freed mutex or condition variable is reported by ASan
+#if defined(VMC_TSAN)
+template <class X>
+inline void vmc_touch(X*) noexcept {}   // (the touch is an unsynchronised write: not under ThreadSanitizer)
+#else
 template <class X>
 inline void vmc_touch(X* p) noexcept { volatile char* c = reinterpret_cast<volatile char*>(p); *c = *c; }
+#endif
 struct mutex {
   vmcrt::Mutex m_;
   mutex() = default;
@@ -264,10 +273,13 @@ struct thread {
   explicit thread(F&& f, A&&... a) {
     auto tup = std::make_shared<std::tuple<std::decay_t<F>, std::decay_t<A>...>>(std::forward<F>(f), std::forward<A>(a)...);
     h_ = vmcrt::spawn(std::function<void()>([tup]() mutable {
-      VMC_TSAN_ACQ(tup.get());
+      VMC_TSAN_ACQ(&g_thread_start_tok[vmcrt::self() & 255]);
       std::apply([](auto&& fn, auto&&... args) { std::invoke(std::move(fn), std::move(args)...); }, std::move(*tup));
       VMC_TSAN_REL(&g_thread_tok[vmcrt::self() & 255]);
+      VMC_TSAN_REL(&g_exec_tok);
     }));
+    // (the child cannot run before the parent's next scheduling point, so this release precedes the child's acquire)
+    VMC_TSAN_REL(&g_thread_start_tok[h_ & 255]);
   }
   thread(thread&& o) noexcept : h_(std::exchange(o.h_, -1)) {}
   thread& operator=(thread&& o) noexcept {
